@@ -70,6 +70,71 @@ CLAIMED = {
             "Trusts TLC and the JDK SHA-256 behind the Native override (self-tested on every run); witness_message's scriptcode argument "
             "is taken to be the CompactSize-prefixed scriptCode, as in the repository's own example tests.",
             "DESIGN.md 5/C11"),
+    "C06": ("TLA+ spec Bech32.tla (polymod, checksum create/verify, 8<->5 regrouping on the bit string, SegwitEncode, the BIP173/BIP350 decoder "
+            "verbatim, total Classify): TLC exhaustive at the REAL code parameters (MC_Bech32), the emitted table replayed into bits.segwit_addr / "
+            "to_bitcoin_address / decode_segwit_addr+assert_valid_segwit / is_segwit_addr, implementation traces validated by TLC (Trace_Bech32)",
+            "Exhaustive model check over 3 networks x 17 versions x every allowed program length x {all-zero, all-ones, one bit at each end}: "
+            "Decode(Encode(x)) = x, <= 90 characters, upper-case form accepted, mixed case / swapped checksum constant / set padding bit / "
+            "disallowed (version, length) rejected, accept set = image of the encoder, and all single-symbol substitutions in one short address "
+            "per checksum kind rejected; three seeded deviations (all-zero program refused, programs < 6 bytes refused, checksum unchecked) must "
+            "yield TLC's counterexample; every row with the expected address string replayed into four entry points; about 23 000 (quick) / "
+            "190 000 (thorough) byte strings derived from valid addresses (exhaustive single substitutions over all 256 byte values, pairs over "
+            "the alphabet exhaustive in thorough, case flips, truncation/extension, constant swap, padding faults, wrong HRP, every byte in the "
+            "version position, non-ASCII, empty/version-only, random) judged by TLC: decoder and is_segwit_addr accept iff the spec accepts, "
+            "same triple, is_segwit_addr/is_addr return a boolean; the 83 BIP173/BIP350 vectors of the repository's tests and 350 corrupted "
+            "pre-recorded events are the spec/binding self-test.",
+            "Trusts TLC (CommunityModules Bitwise XOR) and the JDK SHA-256 behind Native for the Base58Check side of is_addr; is_addr is only "
+            "required to be total, true on valid segwit addresses and false on strings that are neither segwit nor Base58Check; programs BIP141/350 "
+            "forbid are not demanded to be refused by the encoder; 3-4 substitutions, long addresses and random programs are sampled.",
+            "DESIGN.md 5/C06"),
+    "C08": ("TLA+ spec Addr.tla (AddrEncode, dispatcher ScriptPubKeyOf, the six byte templates) composing Base58.tla, Bech32.tla and Ecdsa!Sec1Dec: "
+            "TLC exhaustive decision table on concrete representatives (MC_Addr, small curve + real Bech32), the same table generated with real "
+            "SHA-256 replayed into bits.to_bitcoin_address / bits.script.scriptpubkey, secp256k1-size traces validated by TLC (Trace_Addr)",
+            "Exhaustive model check: (p2pkh, p2sh, witness v0..v16 x every valid length) x 3 networks x {all-zero, all-0xff, mixed} payloads give "
+            "ScriptPubKeyOf(AddrEncode(x)) = Template(x); every point of the 31-element curve over F_43, compressed and uncompressed, maps to "
+            "P2PK; ~1900 malformed key buffers (every off-curve y, length/prefix mismatch, prefixes 00/01/05/06/07, unreduced coordinates, x without "
+            "a root, truncated/extended), all 256 Base58Check version bytes, corrupted and invalid addresses and garbage are refused; three seeded "
+            "deviations (witness length restricted to 20/32, 65-byte 02/03 buffer accepted, unknown version byte accepted) must yield TLC's "
+            "counterexample; every row (expected address and script, real hashes) replayed into the code; at real size round trips for all kinds/"
+            "versions/lengths/networks, boundary and random public keys, malformed buffers, all 256 version bytes, the C06 mutation classes and "
+            "random bytes judged by TLC (script equal to the template, refusal iff none of the three valid kinds); BIP173/350 address->script "
+            "vectors, the docstring literals and published address/script pairs plus 144 corrupted events are the spec/binding self-test.",
+            "Trusts TLC and the JDK SHA-256/BigInteger behind Native (self-tested each run); SEC1 keys are enumerated exhaustively only on the small "
+            "curve (same operators, Big = FALSE), sampled at secp256k1 size; a checksum-valid Base58Check string with a known version byte but a "
+            "payload that is not 20 bytes is outside the quantifier (either outcome allowed); y >= p could not be constructed at full size.",
+            "DESIGN.md 5/C08"),
+    "C12": ("TLA+ spec Schnorr.tla over EC.tla/Num.tla (tagged hashes, lift_x, default signing, verification incl. length/range/parity "
+            "clauses): TLC exhaustive on small b=7 curves (MC_Schnorr), the same model evaluated with real SHA-256 emits the table replayed "
+            "into the retargeted bits.bips.bip340; secp256k1 calls and the 19 official vectors validated by TLC (Trace_Schnorr)",
+            "Exhaustive model check on curves with 31/79/67 points: every secret key 0..n+1 x messages x aux (Sign refuses exactly 0 and >= n, "
+            "output verifies, R = k'G, d and n-d share the x-only key) and EVERY (pk_x, r, s) in (0..p+1)^2 x (0..n+1) with the accepted set "
+            "proven equal to an independent discrete-log characterisation, wrong-length variants rejected, two named verifier deviations refuted "
+            "as vacuity guard; every row (real SHA-256) replayed into the unmodified sign/verify/pubkey retargeted to that curve with exact "
+            "comparison; at secp256k1 size boundary/odd-y/leading-zero keys, message lengths 0..1024, given and omitted (scripted) aux, valid "
+            "triples and their neighbourhoods (bit flips, r/s boundaries, off-curve and >= p keys, negated R/P, crafted infinity, every "
+            "wrong-length class incl. removed leading zero bytes) judged by TLC evaluating the same spec, signature bytes compared exactly.",
+            "Trusts TLC, JDK BigInteger/SHA-256 behind Native (self-tested each run; spec self-tested on the 19 BIP340 vectors each run) and "
+            "that small curves exercise the same statements (module constants rebound by the harness; lift_x's literal 7 equals the curves' b). "
+            "Stage A proper uses toy hashes; full-size inputs are sampled (quick) / per-bit for three triples (thorough), not exhaustive.",
+            "DESIGN.md 5/C12"),
+    "C14": ("TLA+ specs Ecdsa.tla (Sec1Enc/Sec1Dec), Wif.tla (over Base58.tla), Pem.tla (DER layouts of RFC 5915 / SubjectPublicKeyInfo, "
+            "canonical Base64, RFC 7468 armour): TLC exhaustive on small curves (MC_Keys), the same model with real SHA-256 emits the table "
+            "replayed into the retargeted library; secp256k1 calls validated by TLC (Trace_Keys) with OpenSSL as external PEM reader/producer",
+            "Exhaustive model check of the SEC1 accept set over EVERY byte string prefix.X.[Y] (7 prefixes, X,Y in 0..p+2, six lengths) against "
+            "an independent brute-force characterisation plus both round trips; WIF round trip over 3 networks x 8 types x valid/invalid/"
+            "wrong-length keys x suffixes to 120 bytes, version table bijective per network class, accept set = image of the encoder on crafted "
+            "and corrupted strings; PEM for every key 0..n+1 and both public forms with DER layouts asserted byte by byte, Base64 on all short "
+            "strings with an independent RFC 4648 validity predicate, 64-column wrapping at 0..200 bytes; two named deviations refuted as "
+            "vacuity guard; every row replayed into bits.point/is_point/compressed_pubkey/pubkey, wif_encode/wif_decode (both return forms), "
+            "pem_encode_key/pem_decode_key, pem.encode_pem/decode_pem; at secp256k1 size SEC1 candidates of every length 0..70 and malformation "
+            "class, WIF over networks x types x suffix lengths 0..120 with leading-zero keys and single-character corruptions, PEM for keys with "
+            "0..31 leading zero bytes in both directions, judged by TLC, with OpenSSL loading the library's documents as the same key and the "
+            "library decoding OpenSSL's (TraditionalOpenSSL, SPKI uncompressed and compressed).",
+            "Trusts TLC, the Native BigInteger/SHA-256 overrides (self-tested), OpenSSL via cryptography for the interoperability columns "
+            "(compressed SPKI from the openssl CLI when present, else harness-built and first confirmed by OpenSSL), and that small curves share "
+            "the code path. WIF strings with valid checksum and known version but short payload / out-of-range key are not constrained (the "
+            "property does not speak about them); PEM decoding is only judged on well-formed documents; full-size inputs are sampled.",
+            "DESIGN.md 5/C14"),
     "C16": ("TLA+ specs Send.tla (build machine, conservation clauses), Spend.tla (template-level consensus validity of an input), "
             "Sighash.tla (legacy SignatureHash and BIP143 digest) over Tx/Script/Ecdsa: TLC exhaustive on small instances (MC_Send); "
             "bounded build cases and generated configurations run through the real send_tx with a scripted UTXO source and the "
